@@ -43,7 +43,7 @@ static bool parse_run(const std::string& s, Run& r)
     return true;
 }
 
-static unsigned long long g_intrusions, g_rejections;
+static unsigned long long g_intrusions, g_rejections, g_eintr_runs;
 struct Result { bool ok = true; std::string clause, detail; int writes = 0; bool write_failed = false; };
 
 static const uint32_t WIDTHS[3] = { 1, 9, 17 }; // frames of 104, 112 and 120 bytes
@@ -135,7 +135,20 @@ static Result execute(const Run& r, bool verbose)
         }
         DEV(storage_stop(dev));
         foreign_shuffle();
-        if (failed) { res.write_failed = true; continue; } // the property speaks about histories in which no write failed
+        if (failed) {
+            // the property speaks about histories in which no write failed; what a refused append leaves behind is not judged - but the
+            // packets the device ACCEPTED before it are in the file, unchanged, at the front
+            res.write_failed = true;
+            std::vector<uint8_t> got;
+            if (!expect.empty() && h_read_file(path, got) && (got.size() < expect.size() || memcmp(got.data(), expect.data(), expect.size()))) {
+                size_t k = 0; while (k < got.size() && k < expect.size() && got[k] == expect[k]) ++k;
+                res.ok = false; res.clause = "accepted-frames-damaged-by-a-refused-append";
+                snprintf(m, sizeof m, "cycle %d: an append was refused after %zu bytes had been accepted; the file (%zu bytes) differs from the accepted packets at offset %zu", c, expect.size(), got.size(), k);
+                res.detail = m;
+            }
+            unlink(path.c_str());
+            continue;
+        }
         std::vector<uint8_t> got;
         if (!h_read_file(path, got)) { res.ok = false; res.clause = "file-missing"; snprintf(m, sizeof m, "cycle %d: %s does not exist after stop", c, path.c_str()); res.detail = m; break; }
         if (got != expect) {
@@ -233,6 +246,15 @@ int main(int argc, char** argv)
                     note(r, res);
                 }
             // 1 deviation
+            // an interrupted write (-1/EINTR, nothing written) at every pwrite index, alone and after a short write: the device may retry it
+            // or refuse the append, but what it reports as accepted is what the file holds
+            if (cycles == 1 || (b.uri[0] == 0 && b.uri[1] == 0))
+                for (int p1 = 0; p1 < r0.writes + 1; ++p1)
+                    for (int pre = 0; pre <= (p1 > 0 ? W_ZERO : 0); ++pre) {
+                        Run r = b; r.plan.assign(p1 + 1, W_FULL); r.plan[p1] = W_EINTR; if (pre) r.plan[p1 - 1] = pre;
+                        Result res = execute(r, false); ++runs; ++short_runs; ++g_eintr_runs; if (!res.write_failed) ++judged;
+                        note(r, res);
+                    }
             for (int p1 = 0; p1 < W && dev >= 1; ++p1)
                 for (int k1 = W_SHORT_BY_1; k1 <= W_ZERO; ++k1) {
                     Run r = b; r.plan.assign(p1 + 1, W_FULL); r.plan[p1] = k1;
@@ -258,8 +280,8 @@ int main(int argc, char** argv)
     h_rmtree(g_scratch);
     double wall = std::chrono::duration<double>(std::chrono::steady_clock::now() - t0).count();
     FILE* f = out.empty() ? stdout : fopen(out.c_str(), "w");
-    fprintf(f, "{\"runs_with_a_rejected_live_set\":%llu,\"runs_with_a_second_device_on_the_same_file\":%llu,\"max_cycles\":%d,\"max_short_write_deviations\":%d,\"histories\":%llu,\"runs\":%llu,\"runs_with_short_or_zero_writes\":%llu,\"runs_judged\":%llu,\"multi_cycle_histories\":%llu,\"exhaustive\":true,\"wall_s\":%.3f,\"samples\":[",
-            g_rejections, g_intrusions, max_cycles, dev, histories, runs, short_runs, judged, multi_cycle, wall);
+    fprintf(f, "{\"runs_with_an_interrupted_write\":%llu,\"runs_with_a_rejected_live_set\":%llu,\"runs_with_a_second_device_on_the_same_file\":%llu,\"max_cycles\":%d,\"max_short_write_deviations\":%d,\"histories\":%llu,\"runs\":%llu,\"runs_with_short_or_zero_writes\":%llu,\"runs_judged\":%llu,\"multi_cycle_histories\":%llu,\"exhaustive\":true,\"wall_s\":%.3f,\"samples\":[",
+            g_eintr_runs, g_rejections, g_intrusions, max_cycles, dev, histories, runs, short_runs, judged, multi_cycle, wall);
     for (size_t i = 0; i < samples.size(); ++i) fprintf(f, "%s\"%s\"", i ? "," : "", json_esc(samples[i]).c_str());
     fprintf(f, "],\"violations\":[");
     bool first = true;
